@@ -449,6 +449,7 @@ fn main() {
     };
     let p: &'static str = Box::leak(p.into_boxed_str());
     let wd = std::env::var("VERIF_WATCHDOG_S").ok().and_then(|s| s.parse().ok()).unwrap_or(120);
+    let _ = ENGINE.set("simlab");
     start_watchdog(wd);
     std::process::exit(run_property(p, &tier, seed));
 }
